@@ -274,6 +274,30 @@ type server struct {
 	fw      *faultWriter
 	mark    int
 	gaveUp  bool
+	wmu     sync.Mutex  // one writer at a time on the server-to-client stream (the real encoderMutex)
+	reports chan []byte // queued complaints (the real workDone channel), nil when not modelled
+	stop    chan struct{}
+}
+
+// write is the only way the server writes to the client: event and write under one lock, so the
+// order of the `srvwrite` events is the order of the bytes.
+func (s *server) write(w *faultWriter, op, run string, b []byte) {
+	s.wmu.Lock()
+	defer s.wmu.Unlock()
+	s.rec.add(atpcs.Ev{K: "srvwrite", Msg: op, Run: run, N: len(b)})
+	_, _ = w.Write(b)
+}
+
+// reporter writes the queued complaints, like handleClosure of the real server.
+func (s *server) reporter(w *faultWriter) {
+	for {
+		select {
+		case b := <-s.reports:
+			s.write(w, "report", "", b)
+		case <-s.stop:
+			return
+		}
+	}
 }
 
 func (s *server) waitFor(pred func() bool) bool {
@@ -341,6 +365,21 @@ func (s *server) readLoop(r io.Reader, closeRead func()) {
 			}
 		}
 		s.rec.add(atpcs.Ev{K: "srvrecv", Msg: kind, Run: run})
+		if s.reports != nil && kind == "sig" {
+			s.mu.Lock()
+			known := s.ws[run]
+			s.mu.Unlock()
+			if !known {
+				// "unknown step with run ID": queue the complaint; when the queue is full the read
+				// loop waits here - it does not read on - until the client has consumed reports
+				b := atpcs.MsgBytes(atpcs.SOp{Op: "err", R: run}, 3, false)
+				select {
+				case s.reports <- b:
+				case <-s.stop:
+					return
+				}
+			}
+		}
 		s.mu.Lock()
 		s.nMsgs++
 		switch kind {
@@ -388,8 +427,7 @@ func (s *server) script(sess atpcs.Session, w *faultWriter) {
 				oo := o
 				oo.Op = "done"
 				b := atpcs.MsgBytes(oo, sess.Ver, sess.BadSchema)
-				s.rec.add(atpcs.Ev{K: "srvwrite", Msg: "done", Run: o.R, N: len(b)})
-				_, _ = w.Write(b)
+				s.write(w, "done", o.R, b)
 			}
 		case "expectmark":
 			n := o.N
@@ -417,8 +455,7 @@ func (s *server) script(sess atpcs.Session, w *faultWriter) {
 			if b == nil {
 				continue
 			}
-			s.rec.add(atpcs.Ev{K: "srvwrite", Msg: o.Op, Run: o.R, N: len(b)})
-			_, _ = w.Write(b)
+			s.write(w, o.Op, o.R, b)
 		}
 	}
 	// a peer that is done ends its output
@@ -551,6 +588,11 @@ func runJob(job atpcs.Job) (res atpcs.JobResult) {
 
 	srv := &server{rec: rec, ws: map[string]bool{}, giveUp: timeout / 3, fw: fw}
 	srv.cond = sync.NewCond(&srv.mu)
+	srv.stop = make(chan struct{})
+	if job.Session.Backpressure > 0 {
+		srv.reports = make(chan []byte, job.Session.Backpressure)
+		go srv.reporter(fw)
+	}
 	srvDone := make(chan struct{})
 	go srv.readLoop(c2sR, closeC2SRead)
 	go func() { defer close(srvDone); srv.script(job.Session, fw) }()
@@ -674,7 +716,10 @@ func runJob(job atpcs.Job) (res atpcs.JobResult) {
 		case "exec":
 			x := &execState{run: o.R, done: make(chan struct{})}
 			if o.To {
-				x.to = make(chan schema.Input)
+				x.to = make(chan schema.Input, o.Pre)
+				for i := 0; i < o.Pre; i++ {
+					x.to <- schema.Input{RunID: o.R, ID: "sg", InputData: "d"}
+				}
 			}
 			if o.From {
 				x.from = make(chan schema.Input)
@@ -736,6 +781,9 @@ func runJob(job atpcs.Job) (res atpcs.JobResult) {
 		case "joinall":
 			for _, x := range order {
 				join(x)
+				if verdict == "hang" {
+					break // one timeout is enough to know; the others would each cost another
+				}
 			}
 		case "sig":
 			if x := execs[o.R]; x != nil && x.to != nil {
@@ -799,6 +847,7 @@ func runJob(job atpcs.Job) (res atpcs.JobResult) {
 	srv.mu.Lock()
 	srv.stopped = true
 	srv.mu.Unlock()
+	close(srv.stop)
 	// let the script end the stream itself (it does so at once now, unless it is stuck in a write)
 	select {
 	case <-srvDone:
@@ -905,7 +954,7 @@ func runJob(job atpcs.Job) (res atpcs.JobResult) {
 			continue
 		}
 		if x.panicked != nil || x.res.Error != nil {
-			if job.Session.Healthy && job.Fault == nil && job.WriteFailAfter < 0 && strictRun(job.Session, x.run) && x.panicked == nil {
+			if verdict == "ok" && job.Session.Healthy && job.Fault == nil && job.WriteFailAfter < 0 && strictRun(job.Session, x.run) && x.panicked == nil {
 				problem("C05", "Execute failed on a healthy connection although the server answered it: "+x.res.Error.Error(), x.run)
 			}
 			continue
